@@ -108,7 +108,7 @@ def run(prop: str, tier: str, seed: int) -> int:
                            "mc": False, "tlc_workers": 2, "walks": (12 if q else 30, 20), "burst_walks": True}))
     sspecs = gen.family_X(seed, 9 if q else 22, race=True) + gen.family_V(seed + 1, 6 if q else 20)
     for sp in sspecs:
-        units.append(("sched", {"specs": [sp], "maxnow": 200 if q else 80, "waits": (30,) if q else (20, 45),
+        units.append(("sched", {"specs": [sp], "maxnow": 200 if q else 320, "waits": (30,) if q else (20, 45),
                                 "depth": 6 if q else 8, "tlc_workers": 2, "prop": prop}))
     import concurrent.futures as cf
 
